@@ -49,7 +49,7 @@ impl Drop for DTok {
 
 // ------------------------------------------------------------------------------------------ drop tracker
 
-pub const MAX_IDS: usize = 1 << 16;
+pub const MAX_IDS: usize = 1 << 17;
 
 pub struct Tracker {
     created:  Vec<AtomicU32>,
